@@ -28,7 +28,7 @@ CLAIMED = {
     "C16": ("Rely/guarantee obligations on Transport.send / SyncTransport.send: every read of transport.protocol and protocol.transport is a fresh read under the rely (connection lost, user disconnect, new connection at any point, any number of times): nothing escapes, at most one write of the whole command; one pump iteration pops the head, runs it once and sends exactly its reply (FIFO) while producers append.", "Trusted: attribute load/store and deque operations atomic under the GIL (T-dict); a write on a closed connection completes or raises OSError (T-serial).", TECH),
     "C18": ("Keyword flow along the real MRO of all six gateway classes for every subset of the documented options (accepted, and each option honoured) and get_const / safe_is_version / is_sensor against ver.floor for symbolic numeric versions major.minor[.patch].", "Trusted: AwesomeVersion abstraction (numeric, section by section; canonical decimal spelling) T-aw, audited on a grid.", TECH),
     "C19": ("Packetizer.data_received (dependency code under contract) loop invariant: received = packets each followed by the terminator ++ buffer, no terminator left; uniqueness lemma of that decomposition (chunking independence); one logic job per packet after framing; AsyncTasks.add_job runs and sends at once; one SyncTasks pump iteration is FIFO/exactly-once; TCPTransport.run (threaded TCP reader loop): every received chunk handed to data_received exactly once, connection_lost exactly once with the ending error.", "Trusted: T-serial (chunks delivered in order), z3 sequence theory for bytes. The cross-line emission order of the threaded flavour differs from asyncio (known finding F8).", TECH),
-    "C20": ("Per-call exactness of _connection_made/_connection_lost and behavioural subtyping of the three connection_lost overrides (callback exactly once with the cause, reconnect iff the loss was not requested), the reconnect callbacks the transports install (every loss starts exactly one reconnect), the four connect loops per iteration (a failed attempt is followed by exactly one sleep of reconnect_timeout; a new TCP link starts with both watchdog timers stamped), the threaded TCP reader loop (connection_lost exactly once with the cause, watchdog consulted every iteration), stop() disconnects first, and check_connection/_handle_i_version exact in linear real arithmetic over an uninterpreted non-decreasing clock.", "Trusted: T-serial, T-time. Not decided: liveness, thread/asyncio scheduling, the end-to-end timing bound of the TCP watchdog (only the per-call contracts of check_connection are proved).", TECH),
+    "C20": ("Per-call exactness of _connection_made/_connection_lost and behavioural subtyping of the three connection_lost overrides (callback exactly once with the cause, reconnect iff the loss was not requested), the reconnect callbacks the transports install (every loss starts exactly one reconnect), the four connect loops per iteration (a failed attempt is followed by exactly one sleep of reconnect_timeout; a new TCP link starts with both watchdog timers stamped), the threaded TCP reader loop (connection_lost exactly once with the cause, watchdog consulted every iteration), stop() disconnects first, and check_connection/_handle_i_version exact in linear real arithmetic over an uninterpreted non-decreasing clock.", "Trusted: T-serial, T-time. The positive watchdog claim is proved as an inductive invariant under a stated slack (answer latency + loop period <= reconnect_timeout); without slack it fails (known finding F20w). Not decided: liveness, thread/asyncio scheduling, the bound on re-dialling.", TECH),
     "C03": (
         "For every version and every header cell (command -1..5 x sub-type -1..max+2, enumerated completely) the real body of Message.validate - including the live voluptuous validator objects of the version tables and the repository's validator functions - is symbolically executed with node id, child id, ack and payload symbolic, and both directions 'accepted => api.valid' and 'rejected => not api.valid' are discharged; api.valid is an independent table-driven spec written from the property statement. The finite table conditions are decided by exhaustive evaluation of the live tables.",
         "Trusted: my semantics of voluptuous All/Any/Coerce/Range/In/literals/Schema(Object) (T-vol), the AwesomeVersion abstraction (T-aw), int()/float()/unhexlify as uninterpreted functions shared by code and spec (T-str, T-hex), the spec tables (T-spec).",
